@@ -36,12 +36,14 @@ Proof.
     by (intros p ->; apply nonempty_s_true; congruence).
   assert (Hs' : forall s, isep = Some s -> nonempty_s s = true)
     by (intros s ->; apply nonempty_s_true; congruence).
-  destruct v as [[|[|]|z|s]|[|x l]]; cbn [sf_value_for_command].
+  destruct v as [[|[|]|z|s|dn di df de]|[|x l]]; cbn [sf_value_for_command].
   - reflexivity.
   - destruct pre as [p|]; [rewrite (Hp' p eq_refl)|]; cbn.
     + split; [discriminate|]. destruct (negb (fst f) || snd f); reflexivity.
     + reflexivity.
   - destruct pre; reflexivity.
+  - destruct pre as [p|]; [destruct sep|]; cbn; (split; [try discriminate; destruct sep; discriminate|]);
+      destruct (negb (fst f) || snd f); try reflexivity; destruct sep; reflexivity.
   - destruct pre as [p|]; [destruct sep|]; cbn; (split; [try discriminate; destruct sep; discriminate|]);
       destruct (negb (fst f) || snd f); try reflexivity; destruct sep; reflexivity.
   - destruct pre as [p|]; [destruct sep|]; cbn; (split; [try discriminate; destruct sep; discriminate|]);
@@ -418,3 +420,68 @@ Proof.
 Qed.
 Lemma stdout_target_spec so se : sf_stdout_target so se = so.
 Proof. destruct so; reflexivity. Qed.
+
+(* ================================================================ floats: the ScalarFloat branch of _get_value_repr *)
+Lemma stake_app a b : stake (String.length a) (a ^^ b) = a.
+Proof. induction a as [|c a IH]; simpl; [destruct b; reflexivity|]. rewrite IH. reflexivity. Qed.
+Lemma sdrop_app a b : sdrop (String.length a) (a ^^ b) = b.
+Proof. induction a as [|c a IH]; simpl; [destruct b; reflexivity|exact IH]. Qed.
+Lemma zeros_snoc n : zeros n ^^ "0" = zeros (S n).
+Proof. induction n as [|n IH]; simpl; [reflexivity|]. rewrite IH. reflexivity. Qed.
+Lemma strip0_len s : String.length (strip0 s) <= String.length s.
+Proof. induction s as [|c s IH]; simpl; [lia|]. destruct (Ascii.eqb c "0"); simpl; lia. Qed.
+Lemma strip0_zeros s : s = zeros (String.length s - String.length (strip0 s)) ^^ strip0 s.
+Proof.
+  induction s as [|c s IH]; [reflexivity|]. cbn [strip0].
+  destruct (Ascii.eqb c "0") eqn:E.
+  - apply Ascii.eqb_eq in E. subst c. pose proof (strip0_len s). cbn [String.length].
+    replace (S (String.length s) - String.length (strip0 s)) with (S (String.length s - String.length (strip0 s))) by lia.
+    cbn [zeros String.append]. f_equal. exact IH.
+  - replace (String.length (String c s) - String.length (String c s)) with 0 by lia. reflexivity.
+Qed.
+
+(* a float spelled without exponent, at least 1e-6 in the sense of Decimal (_exp + len(_int) > -6), is passed
+   exactly as the job spells it: ip.fp with JSON's integer part ("0" or no leading zero) *)
+Theorem dec_repr_plain neg ip fp :
+  fp <> "" ->
+  (ip = "0" \/ exists c r, ip = String c r /\ Ascii.eqb c "0" = false) ->
+  (-6 < Z.of_nat (String.length (dec_int ip fp)) - Z.of_nat (String.length fp))%Z ->
+  dec_repr neg ip fp None = (if neg then "-" else "") ^^ ip ^^ "." ^^ fp.
+Proof.
+  intros Hfp Hip Hl.
+  assert (Hlen : 1 <= String.length fp) by (destruct fp; [congruence|simpl; lia]).
+  assert (Body : forall body, body = ip ^^ "." ^^ fp ->
+            (if neg then "-" ^^ body else body) = (if neg then "-" else "") ^^ ip ^^ "." ^^ fp)
+    by (intros body ->; destruct neg; reflexivity).
+  unfold dec_repr. apply Body. clear Body.
+  set (d := dec_int ip fp) in *.
+  replace (0 - Z.of_nat (String.length fp))%Z with (- Z.of_nat (String.length fp))%Z by lia.
+  destruct (Z.ltb_spec 0 (- Z.of_nat (String.length fp))) as [H|_]; [lia|].
+  destruct (Z.ltb_spec (-6) (- Z.of_nat (String.length fp) + Z.of_nat (String.length d))) as [_|H]; [|lia].
+  destruct (Z.eqb_spec (- Z.of_nat (String.length fp)) 0) as [H|_]; [lia|].
+  destruct Hip as [->|(c & r & -> & Hc)].
+  - (* 0.fp *)
+    assert (Hd : d = match strip0 fp with EmptyString => "0" | x => x end).
+    { unfold d, dec_int. simpl. reflexivity. }
+    pose proof (strip0_zeros fp) as Hz. pose proof (strip0_len fp) as Hsl.
+    destruct (strip0 fp) as [|c s] eqn:Es.
+    + rewrite Hd. simpl String.length. simpl in Hz. rewrite append_nil_r in Hz. rewrite Nat.sub_0_r in Hz.
+      destruct (Z.leb_spec (- Z.of_nat (String.length fp) + Z.of_nat 1) 0) as [_|H]; [|lia].
+      replace (Z.to_nat (- (- Z.of_nat (String.length fp) + Z.of_nat 1))) with (String.length fp - 1) by lia.
+      simpl. f_equal. f_equal. rewrite zeros_snoc. replace (S (String.length fp - 1)) with (String.length fp) by lia.
+      symmetry. exact Hz.
+    + rewrite Hd.
+      destruct (Z.leb_spec (- Z.of_nat (String.length fp) + Z.of_nat (String.length (String c s))) 0) as [_|H]; [|lia].
+      replace (Z.to_nat (- (- Z.of_nat (String.length fp) + Z.of_nat (String.length (String c s)))))
+        with (String.length fp - String.length (String c s)) by lia.
+      simpl. f_equal. f_equal. symmetry. exact Hz.
+  - (* c r . fp with c <> 0 *)
+    assert (Hd : d = String c r ^^ fp).
+    { unfold d, dec_int. simpl. rewrite Hc. reflexivity. }
+    rewrite Hd. rewrite length_append.
+    destruct (Z.leb_spec (- Z.of_nat (String.length fp) + Z.of_nat (String.length (String c r) + String.length fp)) 0) as [H|_];
+      [simpl in H; lia|].
+    replace (Z.to_nat (- Z.of_nat (String.length fp) + Z.of_nat (String.length (String c r) + String.length fp)))
+      with (String.length (String c r)) by lia.
+    rewrite stake_app, sdrop_app. reflexivity.
+Qed.
